@@ -255,6 +255,24 @@ def _vec_elems(e):
     return []
 
 
+def _array_arity(body):
+    """Number of elements of the vector handed to Value::Array in a to_json body: the literal `vec![..]` in place, or a local bound once to
+    such a literal and used nowhere else (so nothing can have pushed to, popped from or truncated it).  -1 otherwise."""
+    calls = [n for n in hir_walk(body) if n.get("e") == "Call" and str((hir_strip(n["f"]) or {}).get("path", "")).endswith("Value::Array")]
+    if len(calls) != 1 or not calls[0].get("args"):
+        return -1
+    arg = hir_strip(calls[0]["args"][0])
+    if isinstance(arg, dict) and arg.get("e") == "Path" and arg.get("res") == "Local":
+        nm, lid = arg.get("name"), arg.get("id")
+        uses = [n for n in hir_walk(body) if n.get("e") == "Path" and n.get("res") == "Local" and n.get("name") == nm and n.get("id") == lid]
+        lets = [st for blk in hir_walk(body) if blk.get("e") == "Block" for st in blk.get("stmts", [])
+                if st.get("s") == "Let" and st.get("init") is not None and [b for b in hir_walk(st["pat"]) if b.get("name") == nm]]
+        if len(uses) != 1 or len(lets) != 1:
+            return -1
+        return len(_vec_elems(lets[0]["init"]))
+    return len(_vec_elems(arg))
+
+
 SUPPORT = {}     # {function path in humphrey_json: {"member": param index of the key | None, "arity": param index of the length | None}}
 
 
@@ -411,6 +429,12 @@ def run(chk):
             tree = value_tree(ht["body"])
             wr = [int(nm) for nm in [y.get("name") for y in hir_walk(ht["body"]) if y.get("e") == "Field"] if str(nm).isdigit()]
             chk.ob("R2.tuple", f"corpus::{name}", f"{site}: to_json writes an array of the fields 0..{n} in order", tree[0] == "arr" and wr == list(range(n)), f"{tree[0]} fields {wr}")
+            # ... of exactly n elements, whatever the field values are: from_json insists on the arity, so an array that is shortened after it
+            # was built (trailing nulls dropped, empty tails trimmed) does not read back
+            n_el = _array_arity(ht["body"])
+            chk.ob("R2.tuple", f"corpus::{name}", f"{site}: the array to_json returns is the {n}-element vector as built (not edited afterwards)", n_el == n,
+                   f"Value::Array is given {'a vector that is not the literal vec![..] of the fields (built or changed elsewhere)' if n_el < 0 else f'{n_el} element(s)'}: "
+                   "the length of the serialised array can differ from the arity from_json requires")
         else:
             want = {v["key"]: v["name"] for v in t["variants"]}
             rd = {}
